@@ -77,6 +77,8 @@ pub struct PSim {
     pub clock_step: u64,
     /// signals keep arriving (a profiler, an interval timer): a sleep longer than this is cut short after this long,
     /// with EINTR and the remaining time reported -- at most `sleep_eintr_left` times
+    /// (instant, step in ns): the wall clock (CLOCK_REALTIME) jumps by `step` at `instant`
+    pub rt_jump: Option<(u64, i64)>,
     pub sleep_slice: u64,
     pub sleep_eintr_left: u32,
     /// thread that forked the child (waitpid with __WNOTHREAD only sees the calling thread's own children)
@@ -86,6 +88,17 @@ pub struct PSim {
 pub static mut PSIM: Option<Box<PSim>> = None;
 pub fn psim() -> Option<&'static mut PSim> {
     unsafe { (*std::ptr::addr_of_mut!(PSIM)).as_deref_mut() }
+}
+
+/// the thread on which the library's calls are made: only its system calls belong to the simulated world (the harness
+/// itself waits, reads clocks and logs on other threads)
+pub static DRIVER_TID: std::sync::atomic::AtomicI64 = std::sync::atomic::AtomicI64::new(0);
+fn psim_of_driver() -> Option<&'static mut PSim> {
+    let d = DRIVER_TID.load(std::sync::atomic::Ordering::SeqCst);
+    if d != 0 && d != unsafe { libc::syscall(libc::SYS_gettid) } as i64 {
+        return None;
+    }
+    psim()
 }
 
 pub fn tpair(ns: u64) -> Value {
@@ -124,6 +137,7 @@ impl PSim {
             eintr_at: vec![],
             nwaitpid: 0,
             clock_step: 0,
+            rt_jump: None,
             sleep_slice: 0,
             sleep_eintr_left: 0,
             creator_tid: unsafe { libc::syscall(libc::SYS_gettid) } as i64,
@@ -282,6 +296,16 @@ impl PSim {
         if self.runaway {
             self.now += 40 * 86_400 * 1_000_000_000;
         }
+        if self.unfolded >= 300_000 {
+            // letting time fly did not end it: this call will never return.  Record that, tell the driver, and keep
+            // the calling thread here for good (it is never heard of again; the driver abandons it).
+            if !STUCK.swap(true, std::sync::atomic::Ordering::SeqCst) {
+                self.log(json!({"e":"stuck"}));
+            }
+            loop {
+                unsafe { libc::syscall(libc::SYS_pause) };
+            }
+        }
     }
 
     pub unsafe fn sys_waitpid(&mut self, status: *mut c_int, flags: c_int) -> c_int {
@@ -426,7 +450,7 @@ impl PSim {
 }
 
 unsafe fn h_waitpid(pid: c_int, status: *mut c_int, flags: c_int) -> Option<c_int> {
-    let s = psim()?;
+    let s = psim_of_driver()?;
     if pid == s.real_pid {
         return Some(s.sys_waitpid(status, flags));
     }
@@ -435,7 +459,7 @@ unsafe fn h_waitpid(pid: c_int, status: *mut c_int, flags: c_int) -> Option<c_in
     None
 }
 unsafe fn h_kill(pid: c_int, sig: c_int) -> Option<c_int> {
-    let s = psim()?;
+    let s = psim_of_driver()?;
     if pid == s.real_pid {
         return Some(s.sys_kill(sig));
     }
@@ -445,7 +469,15 @@ unsafe fn h_kill(pid: c_int, sig: c_int) -> Option<c_int> {
     Some(-1)
 }
 unsafe fn h_clock_gettime(clk: libc::clockid_t, ts: *mut libc::timespec) -> Option<c_int> {
-    let s = psim()?;
+    let s = psim_of_driver()?;
+    if clk == libc::CLOCK_REALTIME {
+        // the wall clock: it runs with the virtual time, and may be stepped (NTP, `date -s`, a resumed VM) at one instant
+        let (at, by) = s.rt_jump.unwrap_or((0, 0));
+        let t = (1_700_000_000_000_000_000i64 + s.now as i64 + if s.now >= at { by } else { 0 }) as u64;
+        (*ts).tv_sec = (t / 1_000_000_000) as libc::time_t;
+        (*ts).tv_nsec = (t % 1_000_000_000) as libc::c_long;
+        return Some(0);
+    }
     if clk != libc::CLOCK_MONOTONIC && clk != libc::CLOCK_BOOTTIME {
         return None;
     }
@@ -465,7 +497,7 @@ unsafe fn h_clock_nanosleep(
     req: *const libc::timespec,
     _rem: *mut libc::timespec,
 ) -> Option<c_int> {
-    let s = psim()?;
+    let s = psim_of_driver()?;
     let mut d = (*req).tv_sec as u64 * 1_000_000_000 + (*req).tv_nsec as u64;
     if flags & libc::TIMER_ABSTIME != 0 {
         d = d.saturating_sub(s.epoch + s.now);
@@ -484,6 +516,9 @@ unsafe fn h_clock_nanosleep(
     s.sys_sleep(d);
     Some(0)
 }
+
+/// set when a call of the library was found to loop for ever (see count_sys)
+pub static STUCK: std::sync::atomic::AtomicBool = std::sync::atomic::AtomicBool::new(false);
 
 pub fn install() {
     let mut t = crate::hooks::EMPTY;
